@@ -12,6 +12,7 @@ Init == l = 1 /\ vals = <<>> /\ dirty = FALSE /\ ast = <<>> /\ rev = 0
 Line(e) == l <= Len(Trace) /\ Ev.ev = e /\ l' = l + 1
 TBegin == Line("HBegin") /\ vals' = <<>> /\ dirty' = FALSE /\ ast' = Ev.ast /\ rev' = Ev.rev
 TAppend == Line("Append") /\ vals' = Append(vals, Ev.v) /\ (dirty \/ Ev.rows = Len(vals')) /\ UNCHANGED <<dirty, ast, rev>>
+TAppendMany == Line("AppendMany") /\ vals' = vals \o Ev.vs /\ (dirty \/ Ev.rows = Len(vals')) /\ UNCHANGED <<dirty, ast, rev>>
 TReset == Line("Reset") /\ vals' = <<>> /\ dirty' = FALSE /\ Ev.rows = 0 /\ UNCHANGED <<ast, rev>>
 TPrepare == Line("Prepare") /\ (dirty \/ (Ev.err = "" /\ Ev.rows = Len(vals))) /\ UNCHANGED <<vals, dirty, ast, rev>>
 \* the raw block: columns, rows, name, type, flag, state, data - decoded by the specification
@@ -25,7 +26,7 @@ TDecodeOK == /\ Line("DecodeOK")
                 ELSE vals = <<>> /\ Ev.err = "" /\ Ev.read = Ev.data /\ Ev.rows = Len(Ev.data) /\ vals' = Ev.data
              /\ UNCHANGED <<dirty, ast, rev>>
 TDecodeFail == Line("DecodeFail") /\ Ev.err # "" /\ dirty' = TRUE /\ UNCHANGED <<vals, ast, rev>>
-Next == TBegin \/ TAppend \/ TReset \/ TPrepare \/ TEncode \/ TDecodeOK \/ TDecodeFail
+Next == TBegin \/ TAppend \/ TAppendMany \/ TReset \/ TPrepare \/ TEncode \/ TDecodeOK \/ TDecodeFail
 TSpec == Init /\ [][Next]_tvars
 HW == TLCSet(1, IF TLCGet(1) < l THEN l ELSE TLCGet(1))
 Accepted == PrintT(<<"HWM", TLCGet(1)>>) /\ TLCGet(1) = Len(Trace) + 1
